@@ -105,3 +105,36 @@ func (f *Frame) smallHelper(fn *ssa.Function) bool {
 	}
 	return true
 }
+
+// varargElems: the values stored into a variadic argument slice that is built right at the call site
+// (new [n]T; &t[i] = v ...; slice t[:]).
+func varargElems(x ssa.Value) ([]ssa.Value, bool) {
+	sl, ok := x.(*ssa.Slice)
+	if !ok {
+		return nil, false
+	}
+	al, ok := sl.X.(*ssa.Alloc)
+	if !ok || al.Referrers() == nil {
+		return nil, false
+	}
+	var out []ssa.Value
+	for _, r := range *al.Referrers() {
+		switch ia := r.(type) {
+		case *ssa.IndexAddr:
+			if ia.Referrers() == nil {
+				return nil, false
+			}
+			for _, rr := range *ia.Referrers() {
+				st, ok := rr.(*ssa.Store)
+				if !ok || st.Addr != ssa.Value(ia) {
+					return nil, false
+				}
+				out = append(out, st.Val)
+			}
+		case *ssa.Slice, *ssa.DebugRef:
+		default:
+			return nil, false
+		}
+	}
+	return out, true
+}
